@@ -8,7 +8,7 @@ RULE = ("random Domains (length 1-40 / 1-300, from dr or dk) x tabulated omega g
         "straddling the allclose threshold (0.3..3 x (1e-8+1e-5|k|))}; outcome (accepted / rejected) and, when accepted, the returned values are compared "
         "BITWISE with the Lean model; predicate: verbatim-or-exception, decided by an independent allclose transcription; caller-array mutation probe; "
         "wrong-length one-column files pushed through createPRISM/cost; ONE omega object evaluated on a sequence of matching / non-matching grids of the same length. Non-trivial = mismatch families and straddling perturbations; distinct = distinct case")
-EXTRA_TRUSTED = ["np.allclose modelled from NumPy's documentation (|a-b| <= 1e-8 + 1e-5|b|), NaN not modelled",
+EXTRA_TRUSTED = ["np.allclose modelled from NumPy's documentation (|a-b| <= 1e-8 + 1e-5|b|, a NaN is never close)",
                  "np.loadtxt is outside the model: the harness writes the file with repr() floats and passes the same numbers to the model"]
 ASSUMPTIONS = ["finite inputs"]
 
@@ -36,7 +36,9 @@ def suite_array(ctx, case):
     kd = np.array(case['kd'], dtype=float)
     val = case['value']; ks = case['k']
     caller = np.array(val, dtype=float)
-    o = pyPRISM.omega.FromArray(caller, None if ks is None else np.array(ks, dtype=float))
+    kc = case.get('kcont', 'array')
+    kobj = None if ks is None else (tuple(float(x) for x in ks) if kc == 'tuple' else [float(x) for x in ks] if kc == 'list' else np.array(ks, dtype=float))
+    o = pyPRISM.omega.FromArray(caller, kobj)
     caller[:] = -777.0          # later changes to the caller's array must not leak
     impl = outcome(lambda: o.calculate(kd))
     line = 'fa.calc | %s | %s | %s' % (fl(val), 'none' if ks is None else fl(ks), fl(kd))
@@ -146,6 +148,8 @@ def relate(rng, kd, rel):
     if rel == 'rescaled': return [x * (1 + rng.choice([-1, 1]) * 10 ** rng.uniform(-6, -1)) for x in k]
     if rel == 'truncated': return k[:max(0, L - rng.randint(1, min(3, L)))]
     if rel == 'extended': return k + [k[-1] + (i + 1) * (k[0] if L else 1.0) for i in range(rng.randint(1, 3))]
+    if rel == 'nan':
+        k[rng.randrange(L)] = float('nan'); return k
     if rel == 'perturbed':
         i = rng.randrange(L); thr = 1e-8 + 1e-5 * abs(k[i])
         k[i] = k[i] + rng.choice([-1, 1]) * thr * rng.choice([0.3, 0.9, 0.999, 1.001, 1.1, 3.0])
@@ -168,13 +172,13 @@ def generate(ctx):
         ctx.case('history', case, True, tags=['history:' + case['kind'], 'evals:%d' % len(grids)]); suite_history(ctx, case)
     for _ in range(ctx.n(600, 8000)):
         L, dr, kd = gen_domain(rng, maxL)
-        rel = rng.choice(['equal', 'equal', 'shifted', 'rescaled', 'truncated', 'extended', 'perturbed', 'perturbed'])
+        rel = rng.choice(['equal', 'equal', 'shifted', 'rescaled', 'truncated', 'extended', 'perturbed', 'perturbed', 'nan'])
         kind = rng.choice(['array', 'array-nok', 'file2', 'file1'])
         if kind in ('array', 'array-nok'):
             ks = relate(rng, kd, rel) if kind == 'array' else None
             nval = len(ks) if ks is not None else (L if rel in ('equal', 'shifted', 'rescaled', 'perturbed') else len(relate(rng, kd, rel)))
             if rng.random() < 0.1: nval = max(1, nval + rng.choice([-1, 1]))
-            case = {'kd': kd, 'k': ks, 'value': [round(rng.choice([rng.uniform(0, 30), rng.uniform(-0.5, 0.5), rng.uniform(-30, 30), 0.0, 10 ** rng.uniform(-12, -6)]), 12) for _ in range(nval)], 'rel': rel}
+            case = {'kd': kd, 'k': ks, 'value': [round(rng.choice([rng.uniform(0, 30), rng.uniform(-0.5, 0.5), rng.uniform(-30, 30), 0.0, 10 ** rng.uniform(-12, -6)]), 12) for _ in range(nval)], 'rel': rel, 'kcont': rng.choice(['array', 'array', 'list', 'tuple'])}
             ctx.case('array', case, rel != 'equal', tags=['kind:' + kind, 'rel:' + rel, 'L<=%d' % (8 * ((L + 7) // 8))])
             suite_array(ctx, case)
         else:
